@@ -590,6 +590,11 @@ def run(chk):
     from . import rules_C13
 
     report.include_rules(chk, r4, rules_C13, ("C13.R4",) + (("C13.R7",) if getattr(chk, "included_for", None) is None else ()), "a server that was taken out of rotation comes back (and only then leaves the dead list): placement after recovery is that of a fresh client")
+    # placement is what the hasher says: the client a key is sent to is the one get_node names for it, on every path of
+    # the router (a shortcut that answers from the client table instead keeps using servers that left the rotation)
+    from . import rules_C12
+
+    report.include_rules(chk, r4, rules_C12, ("C12.R2",), "the client a key-addressed call uses is the hasher's answer for that key, on every path of the router")
     # the published rule names the hash: placement is the argmax of MurmurHash3_x86_32 scores, so a murmur3_32 that
     # differs from it (for long strings, for some bytes) moves keys away from where other clients of the cluster put them
     from . import rules_C14
